@@ -202,11 +202,11 @@ func drawSwarm(t *rapid.T) {
 }
 
 func drawKey(t *rapid.T, label string) string {
-	return runKeys[rapid.IntRange(0, len(runKeys)-1).Draw(t, label)]
+	return runKeys[uni(t, label, len(runKeys))]
 }
 
 func drawVal(t *rapid.T, label string) mval {
-	switch runVals[rapid.IntRange(0, len(runVals)-1).Draw(t, label)] {
+	switch runVals[uni(t, label, len(runVals))] {
 	case 6:
 		return mval{kind: mInt, i: 0} // non-nil "empty" values: Has must be true
 	case 7:
@@ -290,7 +290,7 @@ func c10Run(t *rapid.T) {
 	}
 
 	for op := 0; op < nops; op++ {
-		kind := rapid.IntRange(0, 11).Draw(t, "op")
+		kind := uni(t, "op", 12)
 		if len(live) == 0 {
 			kind = kind % 3
 		}
@@ -323,7 +323,7 @@ func c10Run(t *rapid.T) {
 			c.real = plush.NewContextWithContext(base)
 			live = append(live, c)
 		case kind == 3 && len(live) < maxCtx:
-			p := live[rapid.IntRange(0, len(live)-1).Draw(t, "parent")]
+			p := live[uni(t, "parent", len(live))]
 			if rapid.Bool().Draw(t, "deep") {
 				p = live[len(live)-1] // grow a chain: depth matters (depth-limited lookups)
 			}
@@ -338,14 +338,14 @@ func c10Run(t *rapid.T) {
 			c.real = rc
 			live = append(live, c)
 		case kind == 4 && len(live) < maxCtx:
-			p := live[rapid.IntRange(0, len(live)-1).Draw(t, "parent")]
+			p := live[uni(t, "parent", len(live))]
 			md, rd := drawData(t)
 			hist = append(hist, fmt.Sprintf("ctx#%d = NewContextWithOuter(%s, ctx#%d)", nextID, fmtData(md), p.id))
 			c := newModel(p, md, nil)
 			c.real = plush.NewContextWithOuter(rd, p.real)
 			live = append(live, c)
 		case kind <= 8:
-			c := live[rapid.IntRange(0, len(live)-1).Draw(t, "ctx")]
+			c := live[uni(t, "ctx", len(live))]
 			k := drawKey(t, "key")
 			v := drawVal(t, "val")
 			hist = append(hist, fmt.Sprintf("ctx#%d.Set(%q, %s)", c.id, k, v))
@@ -358,8 +358,8 @@ func c10Run(t *rapid.T) {
 			c.real.Set(k, v.real())
 			count("c10_sets", 1)
 		case kind <= 10:
-			c := live[rapid.IntRange(0, len(live)-1).Draw(t, "ctx")]
-			k := rapid.SampledFrom(c10Observed).Draw(t, "key")
+			c := live[uni(t, "ctx", len(live))]
+			k := c10Observed[uni(t, "key", len(c10Observed))]
 			hist = append(hist, fmt.Sprintf("ctx#%d.Value(%q)", c.id, k))
 			if !c.ambiguous[k] {
 				want := c.value(k)
@@ -369,8 +369,8 @@ func c10Run(t *rapid.T) {
 				}
 			}
 		default:
-			c := live[rapid.IntRange(0, len(live)-1).Draw(t, "ctx")]
-			k := rapid.SampledFrom(c10Observed).Draw(t, "key")
+			c := live[uni(t, "ctx", len(live))]
+			k := c10Observed[uni(t, "key", len(c10Observed))]
 			hist = append(hist, fmt.Sprintf("ctx#%d.Has(%q)", c.id, k))
 			if !c.ambiguous[k] {
 				want := c.has(k)
